@@ -755,7 +755,7 @@ func derivedRoot(p *Prog, s *Sym, depth int) *Sym {
 
 func callDerived(p *Prog, call *Sym, idx int, depth int) *Sym {
 	pk := fnPkg(call.Fn)
-	if pk == nil || !strings.HasPrefix(pk.Path(), modPath) {
+	if pk == nil || !isOurPath(pk.Path()) {
 		return nil
 	}
 	cfi := p.Info(call.Fn)
